@@ -258,6 +258,20 @@ fn hunt_check(m: &PrefixMap<P, u16>, o: &Oracle, keep_tree_used: bool) -> Result
     let want: Vec<((u8, u8), u16)> = o.values().cloned().collect();
     let got: Vec<((u8, u8), u16)> = m.iter().map(|(p, v)| (*p, *v)).collect();
     if got != want { return Err(format!("iter() yields {got:?}, expected {want:?}")); }
+    let wk: Vec<(u8, u8)> = want.iter().map(|e| e.0).collect();
+    let wv: Vec<u16> = want.iter().map(|e| e.1).collect();
+    if m.keys().cloned().collect::<Vec<_>>() != wk { return Err(format!("keys() yields {:?}, expected {wk:?}", m.keys().collect::<Vec<_>>())); }
+    if m.values().cloned().collect::<Vec<_>>() != wv { return Err(format!("values() yields {:?}, expected {wv:?}", m.values().collect::<Vec<_>>())); }
+    if m.clone().into_iter().collect::<Vec<_>>() != want { return Err(format!("into_iter() yields {:?}, expected {want:?}", m.clone().into_iter().collect::<Vec<_>>())); }
+    if m.clone().into_keys().collect::<Vec<_>>() != wk { return Err(format!("into_keys() yields {:?}, expected {wk:?}", m.clone().into_keys().collect::<Vec<_>>())); }
+    if m.clone().into_values().collect::<Vec<_>>() != wv { return Err(format!("into_values() yields {:?}, expected {wv:?}", m.clone().into_values().collect::<Vec<_>>())); }
+    {
+        let mut mc = m.clone();
+        let g: Vec<((u8, u8), u16)> = mc.iter_mut().map(|(p, v)| (*p, *v)).collect();
+        if g != want { return Err(format!("iter_mut() yields {g:?}, expected {want:?}")); }
+        let g: Vec<u16> = mc.values_mut().map(|v| *v).collect();
+        if g != wv { return Err(format!("values_mut() yields {g:?}, expected {wv:?}")); }
+    }
     for k in 0..7 {
         for host in [0u8, 0x2a] {
             let q = hrep(k, host);
@@ -285,6 +299,10 @@ fn hunt_check(m: &PrefixMap<P, u16>, o: &Oracle, keep_tree_used: bool) -> Result
         let below: Vec<((u8, u8), u16)> = o.iter().filter(|(k, _)| covers(&qk, k)).map(|(_, v)| *v).collect();
         let ch: Vec<((u8, u8), u16)> = m.children(&q).map(|(p, v)| (*p, *v)).collect();
         if ch != below { return Err(format!("children({q:?}) = {ch:?}, expected {below:?}")); }
+        let chm: Vec<((u8, u8), u16)> = mc.children_mut(&q).map(|(p, v)| (*p, *v)).collect();
+        if chm != below { return Err(format!("children_mut({q:?}) = {chm:?}, expected {below:?}")); }
+        let chi: Vec<((u8, u8), u16)> = m.clone().into_children(&q).collect();
+        if chi != below { return Err(format!("into_children({q:?}) = {chi:?}, expected {below:?}")); }
     }
     Ok(())
 }
@@ -520,6 +538,10 @@ fn hunt_views() -> Result<(), String> {
                     let got: Vec<((u8, u8), u16)> = v0.iter().map(|(p, v)| (*p, *v)).collect();
                     if got != ents { return Err(format!("{desc}: view at {rq:?} iterates {got:?}, expected {ents:?}")); }
                     if okey(mask8(*v0.prefix())) != rk { return Err(format!("{desc}: view at {rq:?} reports prefix {:?}", v0.prefix())); }
+                    let got2: Vec<((u8, u8), u16)> = v0.clone().into_iter().map(|(p, v)| (*p, *v)).collect();
+                    if got2 != ents { return Err(format!("{desc}: view at {rq:?}: into_iter() yields {got2:?}, expected {ents:?}")); }
+                    let gk: Vec<(u8, u8)> = v0.keys().cloned().collect();
+                    if gk != ents.iter().map(|e| e.0).collect::<Vec<_>>() { return Err(format!("{desc}: view at {rq:?}: keys() yields {gk:?}")); }
                     let here = o.get(&rk).map(|e| e.1);
                     if v0.value().cloned() != here { return Err(format!("{desc}: view at {rq:?}: value() = {:?}, expected {here:?}", v0.value())); }
                     if v0.prefix_value().map(|(p, v)| (*p, *v)) != o.get(&rk).cloned() { return Err(format!("{desc}: view at {rq:?}: prefix_value() = {:?}, expected {:?}", v0.prefix_value(), o.get(&rk))); }
@@ -582,6 +604,12 @@ fn hunt_views() -> Result<(), String> {
                     let ro_val = m.view_at(*r).and_then(|v| v.prefix_value().map(|(p, v)| (*p, *v)));
                     let mu: Option<Vec<((u8, u8), u16)>> = m.view_mut_at(*r).map(|mut v| v.iter_mut().map(|(p, v)| (*p, *v)).collect());
                     if ro != mu { return Err(format!("{desc}: view_mut_at({r:?}).iter_mut() yields {mu:?}, view_at(..).iter() yields {ro:?}")); }
+                    for hostq in [0u8, 0x2a, 0x55, 0xff] {
+                        let rq = (r.0 | (hostq & (0xffu8 >> r.1)), r.1);
+                        let (hl, hr) = (m.view_at(rq).map(|v| v.left().is_some()), m.view_at(rq).map(|v| v.right().is_some()));
+                        let (ml, mr) = (m.view_mut_at(rq).map(|v| v.has_left()), m.view_mut_at(rq).map(|v| v.has_right()));
+                        if hl != ml || hr != mr { return Err(format!("{desc}: view_mut_at({rq:?}): has_left/has_right = {ml:?}/{mr:?}, the read-only view has left/right = {hl:?}/{hr:?}")); }
+                    }
                     let mu_val = m.view_mut_at(*r).and_then(|mut v| v.prefix_value_mut().map(|(p, v)| (*p, *v)));
                     if ro_val != mu_val { return Err(format!("{desc}: view_mut_at({r:?}).prefix_value_mut() = {mu_val:?}, prefix_value() = {ro_val:?}")); }
                     for q in qs.iter() {
